@@ -2,9 +2,10 @@ import PyatvModel.C09.Model
 /-
 C09 — invariants of the facade life-cycle model.
 
-`Mid`  holds from the moment `close()` has stored `_pending_tasks` (so also during the
-       protocol loop, while protocols report re-entrantly) — parameterised by the
-       notification `d` that the caller of `state_was_updated` will still append;
+`Mid`  holds from the moment `close()` has stored `_pending_tasks` and blocked everything (so
+       also during the protocol loop, while protocols report re-entrantly and user handlers run,
+       re-enter the API / close(), or raise) — parameterised by the notification `d` that the
+       caller of `state_was_updated` will still append;
 `Inv`  holds in every state between two events.
 -/
 namespace PyatvModel.C09
@@ -59,6 +60,59 @@ theorem isBlocking_closed (s : St) (n o : Nat) (h : s.shield = List.replicate n 
   rw [h]
   simp [ho]
 
+/-! ### protected members -/
+
+/-- member `m` of table `tbl` is protected against use after close (`n` shielded objects) -/
+def rowProtected (n : Nat) (tbl : List Row) (m : Row) : Bool :=
+  match m.guard with
+  | .guarded => decide (m.obj < n)
+  | .closeExempt => true
+  | .unguarded => false
+  | .derived via => !via.isEmpty && via.all fun j =>
+      match tbl[j]? with
+      | some mj => mj.guard == .guarded && decide (mj.obj < n)
+      | none => false
+
+theorem apiBlocked_of_closed (cfg : Cfg) (s : St) (m : Row)
+    (hsh : s.shield = List.replicate cfg.nObjs (some true))
+    (hm : rowProtected cfg.nObjs cfg.members m = true) (hx : m.guard ≠ .closeExempt) :
+    apiBlocked cfg s m = true := by
+  have hb : ∀ o, o < cfg.nObjs → isBlocking s o = true :=
+    fun o ho => isBlocking_closed _ cfg.nObjs o hsh ho
+  unfold rowProtected at hm
+  unfold apiBlocked
+  cases hg : m.guard with
+  | guarded =>
+    rw [hg] at hm
+    exact hb _ (by simpa using hm)
+  | closeExempt => exact absurd hg hx
+  | unguarded => rw [hg] at hm; simp at hm
+  | derived via =>
+    rw [hg] at hm
+    simp only [Bool.and_eq_true, Bool.not_eq_true', List.all_eq_true] at hm
+    obtain ⟨hne, hall⟩ := hm
+    cases via with
+    | nil => simp at hne
+    | cons j js =>
+      simp only [List.any_cons, Bool.or_eq_true]
+      left
+      have hj := hall j (by simp)
+      cases hrow : cfg.members[j]? with
+      | none => rw [hrow] at hj; simp at hj
+      | some mj =>
+        rw [hrow] at hj
+        simp only [Bool.and_eq_true, decide_eq_true_eq] at hj
+        simp only [hj.1, Bool.true_and]
+        exact hb _ hj.2
+
+/-- what a call made from inside the DeviceListener callback must have seen -/
+def InnerOk (cfg : Cfg) (e : Bool × InEv × Out) : Prop :=
+  e.1 = true →
+    match e.2.1 with
+    | .api m => ∀ row, cfg.members[m]? = some row →
+        rowProtected cfg.nObjs cfg.members row = true → row.guard ≠ .closeExempt → e.2.2 = .blocked
+    | .close => ∃ x n, e.2.2 = .set x n
+
 /-! ### close() once the task set is cached -/
 
 theorem closeF_cached (cfg : Cfg) (f : Nat) (s : St) (x : Nat) (h : s.pending = some x) :
@@ -71,113 +125,249 @@ def Cached (k : St → St) : Prop := ∀ s x, s.pending = some x → k s = s
 theorem cached_closeF (cfg : Cfg) (f : Nat) : Cached (closeF cfg (f + 1)) :=
   fun s x h => closeF_cached cfg f s x h
 
-structure Mid (cfg : Cfg) (x : Nat) (sh : List Shield) (log : List Nat) (d : List Report)
-    (s : St) : Prop where
+structure Mid (cfg : Cfg) (x : Nat) (q : Bool) (d : List Report) (s : St) : Prop where
   pending : s.pending = some x
   raised : s.raised = false
   calls : s.callsMade = s.reports.length
   notif : s.notified ++ d = firstOf cfg.listener s.reports
-  shield : s.shield = sh
+  shield : s.shield = List.replicate cfg.nObjs (some true)
   pushOn : s.pushOn = false
-  closeLog : s.closeLog = log
+  inner : ∀ e ∈ s.inner, InnerOk cfg e
+  quiet : q = true → 1 ≤ s.callsMade ∧ s.flying = false
 
-theorem reportWith_mid {cfg : Cfg} {k : St → St} {x sh log d s} (hm : cfg.maxCalls = 1)
-    (hk : Cached k) (h : Mid cfg x sh log d s) (r : Report) :
-    Mid cfg x sh log d (reportWith cfg k s r) := by
-  obtain ⟨hp, hr, hc, hn, hs, hpo, hl⟩ := h
+theorem Mid.weaken {cfg : Cfg} {x q d s} (h : Mid cfg x q d s) : Mid cfg x false d s :=
+  ⟨h.pending, h.raised, h.calls, h.notif, h.shield, h.pushOn, h.inner, by simp⟩
+
+/-- what the cached regime leaves alone -/
+def Same (s s' : St) : Prop :=
+  s'.pending = s.pending ∧ s'.tasks = s.tasks ∧ s'.closeLog = s.closeLog
+
+theorem Same.refl (s : St) : Same s s := ⟨rfl, rfl, rfl⟩
+
+theorem Same.trans {a b c : St} (h1 : Same a b) (h2 : Same b c) : Same a c :=
+  ⟨h2.1.trans h1.1, h2.2.1.trans h1.2.1, h2.2.2.trans h1.2.2⟩
+
+/-- user code inside the DeviceListener callback, after the device has been blocked: every
+    protected member answers `blocked`, `close()` answers the cached set -/
+theorem runInner_cached {cfg : Cfg} {k : St → St} {x q d} (hk : Cached k) (dl : Bool)
+    (es : List InEv) :
+    ∀ s, Mid cfg x q d s → s.flying = false →
+      Mid cfg x q d (runInner cfg k dl s es) ∧ (runInner cfg k dl s es).flying = false ∧
+        Same s (runInner cfg k dl s es) := by
+  induction es with
+  | nil => intro s h hf; exact ⟨h, hf, Same.refl s⟩
+  | cons e es ih =>
+    intro s h hf
+    cases e with
+    | api m =>
+      simp only [runInner]
+      have h1 : Mid cfg x q d { s with inner := s.inner ++ [(dl, InEv.api m, apiOut cfg s m)] } := by
+        refine ⟨h.pending, h.raised, h.calls, h.notif, h.shield, h.pushOn, ?_, h.quiet⟩
+        intro e he
+        rcases List.mem_append.mp he with he | he
+        · exact h.inner e he
+        · simp only [List.mem_singleton] at he
+          subst he
+          intro _
+          intro row hrow hprot hx
+          simp only [apiOut, hrow, apiBlocked_of_closed cfg s row h.shield hprot hx, if_true]
+      obtain ⟨a, b, c⟩ := ih _ h1 hf
+      exact ⟨a, b, Same.trans ⟨rfl, rfl, rfl⟩ c⟩
+    | close =>
+      have hk' := hk s x h.pending
+      have hstep : runInner cfg k dl s (InEv.close :: es)
+          = runInner cfg k dl { s with inner := s.inner ++ [(dl, InEv.close, closeOut s)] } es := by
+        simp only [runInner, hk']
+        rw [if_neg (by simp [hf])]
+      rw [hstep]
+      have h1 : Mid cfg x q d { s with inner := s.inner ++ [(dl, InEv.close, closeOut s)] } := by
+        refine ⟨h.pending, h.raised, h.calls, h.notif, h.shield, h.pushOn, ?_, h.quiet⟩
+        intro e he
+        rcases List.mem_append.mp he with he | he
+        · exact h.inner e he
+        · simp only [List.mem_singleton] at he
+          subst he
+          intro _
+          exact ⟨x, s.tasks, by simp [closeOut, h.pending, h.raised]⟩
+      obtain ⟨a, b, c⟩ := ih _ h1 hf
+      exact ⟨a, b, Same.trans ⟨rfl, rfl, rfl⟩ c⟩
+
+theorem handler_cached {cfg : Cfg} {k : St → St} {x d s} (hk : Cached k) (r : Report) (b : Beh)
+    (h : Mid cfg x false (r :: d) s) (hf : s.flying = false) :
+    Mid cfg x false d (handler cfg k s r b) ∧ Same s (handler cfg k s r b) ∧
+      (b.raises = false → (handler cfg k s r b).flying = false) := by
+  have h0 : Mid cfg x false d { s with notified := s.notified ++ [r] } :=
+    ⟨h.pending, h.raised, h.calls, by simpa using h.notif, h.shield, h.pushOn, h.inner, by simp⟩
+  obtain ⟨a, bb, c⟩ := runInner_cached (cfg := cfg) hk true b.inner _ h0 hf
+  unfold handler
+  simp only []
+  split
+  · rename_i hr
+    refine ⟨⟨a.pending, a.raised, a.calls, a.notif, a.shield, a.pushOn, a.inner, by simp⟩,
+      Same.trans ⟨rfl, rfl, rfl⟩ c, ?_⟩
+    intro hb; rw [hb] at hr; exact absurd hr (by simp)
+  · exact ⟨a, Same.trans ⟨rfl, rfl, rfl⟩ c, fun _ => bb⟩
+
+theorem reportWith_mid {cfg : Cfg} {k : St → St} {x q d s} (hm : cfg.maxCalls = 1)
+    (hk : Cached k) (h : Mid cfg x q d s) (hf : s.flying = false) (r : Report) (b : Beh) :
+    Mid cfg x q d (reportWith cfg k s r b) ∧ Same s (reportWith cfg k s r b) ∧
+      (b.raises = false → (reportWith cfg k s r b).flying = false) := by
+  obtain ⟨hp, hr, hc, hn, hs, hpo, hin, hq⟩ := h
   unfold reportWith
   simp only [hm]
   by_cases h0 : s.callsMade = 0
   · -- first report ever: delivered
+    have hq' : q = false := by
+      cases q with
+      | false => rfl
+      | true => have := (hq rfl).1; omega
+    subst hq'
     have hrs : s.reports = [] := by
       have : s.reports.length = 0 := by omega
       exact List.eq_nil_of_length_eq_zero this
     rw [hrs, firstOf_nil] at hn
     have hnot : s.notified = [] := (List.append_eq_nil_iff.mp hn).1
     have hd : d = [] := (List.append_eq_nil_iff.mp hn).2
+    subst hd
     simp only [h0, Nat.zero_add, ne_eq, Nat.succ_ne_zero, not_false_eq_true, Nat.lt_irrefl,
       and_false, if_false, gt_iff_lt]
     have hk' := hk { s with reports := s.reports ++ [r], callsMade := 1 } x hp
     cases hl' : cfg.listener with
     | none =>
       simp only [hk']
-      exact ⟨hp, hr, by simp [hrs], by simp [hl', firstOf, hnot, hd], hs, hpo, hl⟩
+      exact ⟨⟨hp, hr, by simp [hrs], by simp [hl', firstOf, hnot], hs, hpo, hin, by simp⟩,
+        ⟨rfl, rfl, rfl⟩, fun _ => hf⟩
     | alive =>
       simp only [hk']
-      exact ⟨hp, hr, by simp [hrs], by simp [hl', firstOf, hnot, hd, hrs], hs, hpo, hl⟩
+      rw [if_neg (by simp [hf])]
+      have hmid : Mid cfg x false [r] { s with reports := s.reports ++ [r], callsMade := 1 } :=
+        ⟨hp, hr, by simp [hrs], by simp [hl', firstOf, hnot, hrs], hs, hpo, hin, by simp⟩
+      obtain ⟨a, bb, c⟩ := handler_cached (cfg := cfg) hk r b hmid hf
+      exact ⟨a, Same.trans ⟨rfl, rfl, rfl⟩ bb, c⟩
     | dead =>
-      exact ⟨hp, hr, by simp [hrs], by simp [hl', firstOf, hnot, hd], hs, hpo, hl⟩
+      exact ⟨⟨hp, hr, by simp [hrs], by simp [hl', firstOf, hnot], hs, hpo, hin, by simp⟩,
+        ⟨rfl, rfl, rfl⟩, fun _ => hf⟩
   · -- max_calls exhausted: swallowed
     have hne : s.reports ≠ [] := by
       intro he; rw [he] at hc; simp at hc; exact h0 hc
     have hgt : s.callsMade + 1 > 1 := by omega
     simp only [ne_eq, Nat.succ_ne_zero, not_false_eq_true, hgt, and_self, if_true]
-    exact ⟨hp, hr, by simp [hc], by simpa [firstOf_append_of_ne _ _ _ hne] using hn, hs, hpo, hl⟩
+    exact ⟨⟨hp, hr, by simp [hc], by simpa [firstOf_append_of_ne _ _ _ hne] using hn, hs, hpo, hin,
+      fun hq1 => ⟨by simp, (hq hq1).2⟩⟩, ⟨rfl, rfl, rfl⟩, fun _ => hf⟩
 
-theorem foldl_reportWith_mid {cfg : Cfg} {k : St → St} {x sh log d} (hm : cfg.maxCalls = 1)
-    (hk : Cached k) (i : Nat) (kinds : List Kind) :
-    ∀ s, Mid cfg x sh log d s →
-      Mid cfg x sh log d (kinds.foldl (fun s kd => reportWith cfg k s ⟨i, kd⟩) s) := by
-  induction kinds with
-  | nil => intro s h; exact h
-  | cons kd kds ih =>
+/-- the reports one protocol emits while it is being closed -/
+abbrev emit (cfg : Cfg) (k : St → St) (i : Nat) (s : St) (rb : Kind × Beh) : St :=
+  if s.flying then s else reportWith cfg k s ⟨i, rb.1⟩ rb.2
+
+theorem foldl_emit_mid {cfg : Cfg} {k : St → St} {x q d} (hm : cfg.maxCalls = 1)
+    (hk : Cached k) (i : Nat) (rbs : List (Kind × Beh)) :
+    ∀ s, Mid cfg x q d s →
+      Mid cfg x q d (rbs.foldl (emit cfg k i) s) ∧ Same s (rbs.foldl (emit cfg k i) s) ∧
+        ((∀ rb ∈ rbs, rb.2.raises = false) → s.flying = false →
+          (rbs.foldl (emit cfg k i) s).flying = false) := by
+  induction rbs with
+  | nil => intro s h; exact ⟨h, Same.refl s, fun _ hf => hf⟩
+  | cons rb rbs ih =>
     intro s h
     simp only [List.foldl_cons]
-    exact ih _ (reportWith_mid hm hk h _)
+    by_cases hf : s.flying = true
+    · have he : emit cfg k i s rb = s := by simp [emit, hf]
+      rw [he]
+      obtain ⟨a, b, _⟩ := ih s h
+      exact ⟨a, b, fun _ hf' => by rw [hf'] at hf; exact absurd hf (by simp)⟩
+    · have hf' : s.flying = false := by simpa using hf
+      have he : emit cfg k i s rb = reportWith cfg k s ⟨i, rb.1⟩ rb.2 := by simp [emit, hf']
+      rw [he]
+      obtain ⟨a, b, c⟩ := reportWith_mid hm hk h hf' ⟨i, rb.1⟩ rb.2
+      obtain ⟨a', b', c'⟩ := ih _ a
+      refine ⟨a', Same.trans b b', ?_⟩
+      intro hben _
+      exact c' (fun rb' hrb' => hben rb' (List.mem_cons_of_mem _ hrb')) (c (hben rb (by simp)))
 
-theorem closeProtos_mid {cfg : Cfg} {k : St → St} {x sh d} (hm : cfg.maxCalls = 1)
+theorem closeProtos_mid {cfg : Cfg} {k : St → St} {x q d} (hm : cfg.maxCalls = 1)
     (hk : Cached k) (ps : List Proto) :
-    ∀ i log s, Mid cfg x sh log d s →
-      Mid cfg x sh (log ++ List.range' i ps.length) d (closeProtos cfg k i ps s) := by
+    ∀ i s, Mid cfg x q d s →
+      Mid cfg x q d (closeProtos cfg k i ps s) ∧
+      (∃ j, j ≤ ps.length ∧ (closeProtos cfg k i ps s).closeLog = s.closeLog ++ List.range' i j ∧
+        ((closeProtos cfg k i ps s).flying = false → j = ps.length)) ∧
+      ((∀ p ∈ ps, ∀ rb ∈ p.onClose, rb.2.raises = false) → s.flying = false →
+        (closeProtos cfg k i ps s).flying = false) := by
   induction ps with
-  | nil => intro i log s h; simpa [closeProtos] using h
+  | nil =>
+    intro i s h
+    exact ⟨by simpa [closeProtos] using h, ⟨0, by simp [closeProtos]⟩, fun _ hf => by simpa [closeProtos] using hf⟩
   | cons p ps ih =>
-    intro i log s h
-    simp only [closeProtos]
-    have h1 : Mid cfg x sh (log ++ [i]) d { s with closeLog := s.closeLog ++ [i] } :=
-      ⟨h.pending, h.raised, h.calls, h.notif, h.shield, h.pushOn, by simp [h.closeLog]⟩
-    have h2 := foldl_reportWith_mid hm hk i p.onClose _ h1
-    have h3 : Mid cfg x sh (log ++ [i]) d
-        { (p.onClose.foldl (fun s kd => reportWith cfg k s ⟨i, kd⟩)
-            { s with closeLog := s.closeLog ++ [i] }) with
-          tasks := (p.onClose.foldl (fun s kd => reportWith cfg k s ⟨i, kd⟩)
-            { s with closeLog := s.closeLog ++ [i] }).tasks + p.tasks } :=
-      ⟨h2.pending, h2.raised, h2.calls, h2.notif, h2.shield, h2.pushOn, h2.closeLog⟩
-    have h4 := ih (i + 1) (log ++ [i]) _ h3
-    have : log ++ [i] ++ List.range' (i + 1) ps.length = log ++ List.range' i (ps.length + 1) := by
-      simp [List.range'_succ]
-    rw [this] at h4
-    simpa using h4
+    intro i s h
+    have h1 : Mid cfg x q d { s with closeLog := s.closeLog ++ [i] } :=
+      ⟨h.pending, h.raised, h.calls, h.notif, h.shield, h.pushOn, h.inner, h.quiet⟩
+    obtain ⟨h2, hsame, hben2⟩ := foldl_emit_mid hm hk i p.onClose _ h1
+    have hlog2 : (p.onClose.foldl (emit cfg k i) { s with closeLog := s.closeLog ++ [i] }).closeLog
+        = s.closeLog ++ [i] := hsame.2.2
+    show Mid cfg x q d (closeProtos cfg k i (p :: ps) s) ∧ _
+    rw [show closeProtos cfg k i (p :: ps) s =
+      (if (p.onClose.foldl (emit cfg k i) { s with closeLog := s.closeLog ++ [i] }).flying then
+        p.onClose.foldl (emit cfg k i) { s with closeLog := s.closeLog ++ [i] }
+       else closeProtos cfg k (i + 1) ps
+        { (p.onClose.foldl (emit cfg k i) { s with closeLog := s.closeLog ++ [i] }) with
+          tasks := (p.onClose.foldl (emit cfg k i) { s with closeLog := s.closeLog ++ [i] }).tasks + p.tasks })
+      from rfl]
+    generalize hs2 : p.onClose.foldl (emit cfg k i) { s with closeLog := s.closeLog ++ [i] } = s2 at *
+    by_cases hf2 : s2.flying = true
+    · rw [if_pos hf2]
+      refine ⟨h2, ⟨1, by simp, by simp [hlog2, List.range'], fun hff => ?_⟩, ?_⟩
+      · rw [hff] at hf2; exact absurd hf2 (by simp)
+      · intro hben hf
+        have := hben2 (hben p (by simp)) hf
+        rw [this] at hf2; exact absurd hf2 (by simp)
+    · have hf2' : s2.flying = false := by simpa using hf2
+      rw [if_neg hf2]
+      have h3 : Mid cfg x q d { s2 with tasks := s2.tasks + p.tasks } :=
+        ⟨h2.pending, h2.raised, h2.calls, h2.notif, h2.shield, h2.pushOn, h2.inner, h2.quiet⟩
+      obtain ⟨a, ⟨j, hj, hlog, hfull⟩, c⟩ := ih (i + 1) _ h3
+      refine ⟨a, ⟨j + 1, by simp; omega, ?_, fun hff => by simp [hfull hff]⟩, ?_⟩
+      · rw [hlog]
+        show s2.closeLog ++ List.range' (i + 1) j = s.closeLog ++ List.range' i (j + 1)
+        rw [hlog2]
+        simp [List.range'_succ]
+      · intro hben _
+        exact c (fun p' hp' => hben p' (List.mem_cons_of_mem _ hp')) hf2'
 
-theorem blockEverything_mid {cfg : Cfg} {x n log d s}
-    (h : Mid cfg x (List.replicate n (some false)) log d s) :
-    Mid cfg x (List.replicate n (some true)) log d (blockEverything s) := by
-  obtain ⟨hp, hr, hc, hn, hs, hpo, hl⟩ := h
+theorem blockEverything_open (s : St) (n : Nat) (h : s.shield = List.replicate n (some false)) :
+    blockEverything s = { s with shield := List.replicate n (some true) } := by
   unfold blockEverything
-  simp only [hs, blockFrom_replicate]
-  exact ⟨hp, by simp [hr], hc, hn, rfl, hpo, hl⟩
+  simp [h, blockFrom_replicate]
+
+/-- every protocol's close-time reports come with a handler behaviour that does not raise -/
+def BenignProtos (cfg : Cfg) : Prop := ∀ p ∈ cfg.protos, ∀ rb ∈ p.onClose, rb.2.raises = false
 
 /-- `close()` on an open device, entered with `d` still to be delivered by the caller -/
-theorem closeF_open {cfg : Cfg} (wf : WF cfg) (f : Nat) (d : List Report) (s : St)
+theorem closeF_open {cfg : Cfg} (wf : WF cfg) (f : Nat) (q : Bool) (d : List Report) (s : St)
     (hp : s.pending = none) (hr : s.raised = false) (hc : s.callsMade = s.reports.length)
     (hn : s.notified ++ d = firstOf cfg.listener s.reports)
-    (hs : s.shield = List.replicate cfg.nObjs (some false)) (hl : s.closeLog = []) :
-    Mid cfg s.nextId (List.replicate cfg.nObjs (some true)) (List.range' 0 cfg.protos.length) d
-      (closeF cfg (f + 2) s) := by
+    (hs : s.shield = List.replicate cfg.nObjs (some false)) (hl : s.closeLog = [])
+    (hin : ∀ e ∈ s.inner, InnerOk cfg e) (hq : q = true → 1 ≤ s.callsMade ∧ s.flying = false) :
+    Mid cfg s.nextId q d (closeF cfg (f + 2) s) ∧
+      (∃ j, j ≤ cfg.protos.length ∧ (closeF cfg (f + 2) s).closeLog = List.range' 0 j ∧
+        ((closeF cfg (f + 2) s).flying = false → j = cfg.protos.length)) ∧
+      (BenignProtos cfg → s.flying = false → (closeF cfg (f + 2) s).flying = false) := by
   have hb0 := isBlocking_open s cfg.nObjs 0 hs
   have hb1 := isBlocking_open s cfg.nObjs cfg.pushObj hs
   rw [closeF]
   simp only [hp, hb0, hb1, Bool.or_self, Bool.false_eq_true, if_false]
-  apply blockEverything_mid
-  have h0 : Mid cfg s.nextId (List.replicate cfg.nObjs (some false)) [] d
-      { s with pushOn := false, pending := some s.nextId, nextId := s.nextId + 1, tasks := 1 } :=
-    ⟨rfl, hr, hc, hn, hs, rfl, hl⟩
-  have := closeProtos_mid wf.maxCalls (cached_closeF cfg f) cfg.protos 0 [] _ h0
-  simpa using this
+  rw [blockEverything_open _ cfg.nObjs (by simpa using hs)]
+  rw [if_neg (by simp [hr])]
+  have h0 : Mid cfg s.nextId q d
+      { s with pushOn := false, pending := some s.nextId, nextId := s.nextId + 1, tasks := 1,
+               shield := List.replicate cfg.nObjs (some true) } :=
+    ⟨rfl, hr, hc, hn, rfl, rfl, hin, hq⟩
+  obtain ⟨a, ⟨j, hj, hlog, hfull⟩, c⟩ :=
+    closeProtos_mid wf.maxCalls (cached_closeF cfg f) cfg.protos 0 _ h0
+  exact ⟨a, ⟨j, hj, by simpa [hl] using hlog, hfull⟩, fun hb hf => c hb hf⟩
 
 /-! ### the invariant between events -/
 
-structure Inv (cfg : Cfg) (s : St) : Prop where
+/-- everything except "no user exception in flight" -/
+structure Inv' (cfg : Cfg) (s : St) : Prop where
   raised : s.raised = false
   calls : s.callsMade = s.reports.length
   notif : s.notified = firstOf cfg.listener s.reports
@@ -185,35 +375,63 @@ structure Inv (cfg : Cfg) (s : St) : Prop where
     s.reports = [] ∧ s.closeLog = [] ∧ s.shield = List.replicate cfg.nObjs (some false)
   closed : ∀ x, s.pending = some x →
     s.shield = List.replicate cfg.nObjs (some true) ∧ s.pushOn = false ∧
-      s.closeLog = List.range' 0 cfg.protos.length
+      s.closeLog <+: List.range' 0 cfg.protos.length ∧
+      (BenignProtos cfg → s.closeLog = List.range' 0 cfg.protos.length)
+  inner : ∀ e ∈ s.inner, InnerOk cfg e
 
-theorem Inv.of_mid {cfg : Cfg} {x s}
-    (h : Mid cfg x (List.replicate cfg.nObjs (some true)) (List.range' 0 cfg.protos.length) [] s) :
-    Inv cfg s :=
+def Inv (cfg : Cfg) (s : St) : Prop := Inv' cfg s ∧ s.flying = false
+
+theorem range'_prefix (j n : Nat) (h : j ≤ n) : List.range' 0 j <+: List.range' 0 n := by
+  obtain ⟨m, rfl⟩ := Nat.exists_eq_add_of_le h
+  rw [List.range'_append_1 |>.symm]
+  exact List.prefix_append _ _
+
+theorem Inv'.of_mid {cfg : Cfg} {x q s} (h : Mid cfg x q [] s)
+    (hlog : s.closeLog <+: List.range' 0 cfg.protos.length)
+    (hben : BenignProtos cfg → s.closeLog = List.range' 0 cfg.protos.length) : Inv' cfg s :=
   ⟨h.raised, h.calls, by simpa using h.notif, by simp [h.pending],
-    fun _ _ => ⟨h.shield, h.pushOn, h.closeLog⟩⟩
+    fun _ _ => ⟨h.shield, h.pushOn, hlog, hben⟩, h.inner⟩
 
-theorem Inv.to_mid {cfg : Cfg} {x s} (h : Inv cfg s) (hp : s.pending = some x) :
-    Mid cfg x (List.replicate cfg.nObjs (some true)) (List.range' 0 cfg.protos.length) [] s :=
-  ⟨hp, h.raised, h.calls, by simp [h.notif], (h.closed x hp).1, (h.closed x hp).2.1,
-    (h.closed x hp).2.2⟩
+theorem Inv'.to_mid {cfg : Cfg} {x s} (h : Inv' cfg s) (hp : s.pending = some x) :
+    Mid cfg x false [] s :=
+  ⟨hp, h.raised, h.calls, by simp [h.notif], (h.closed x hp).1, (h.closed x hp).2.1, h.inner, by simp⟩
+
+theorem Inv'.clear {cfg : Cfg} {s : St} (h : Inv' cfg s) : Inv cfg { s with flying := false } :=
+  ⟨⟨h.raised, h.calls, h.notif, h.opened, h.closed, h.inner⟩, rfl⟩
 
 theorem inv_init (cfg : Cfg) : Inv cfg (init cfg) :=
-  ⟨rfl, rfl, by simp [init, firstOf_nil], fun _ => ⟨rfl, rfl, rfl⟩, by simp [init]⟩
+  ⟨⟨rfl, rfl, by simp [init, firstOf_nil], fun _ => ⟨rfl, rfl, rfl⟩, by simp [init], by simp [init]⟩, rfl⟩
 
-theorem inv_userClose {cfg : Cfg} (wf : WF cfg) {s : St} (h : Inv cfg s) :
-    Inv cfg (closeF cfg topFuel s) := by
-  cases hp : s.pending with
-  | some x => rw [show topFuel = 1 + 1 from rfl, closeF_cached cfg 1 s x hp]; exact h
-  | none =>
-    obtain ⟨hrs, hlog, hsh⟩ := h.opened hp
-    exact Inv.of_mid (closeF_open wf 0 [] s hp h.raised h.calls (by simp [h.notif]) hsh hlog)
+/-- the device has been closed: `_pending_tasks` is set -/
+def Closed (s : St) : Prop := ∃ x, s.pending = some x
 
-theorem inv_report {cfg : Cfg} (wf : WF cfg) {s : St} (h : Inv cfg s) (r : Report) :
-    Inv cfg (reportWith cfg (closeF cfg topFuel) s r) := by
+theorem inv_close {cfg : Cfg} (wf : WF cfg) {s : St} (h : Inv cfg s) :
+    Inv' cfg (closeF cfg topFuel s) ∧ Closed (closeF cfg topFuel s) ∧
+      (BenignProtos cfg → (closeF cfg topFuel s).flying = false) := by
+  obtain ⟨h, hfl⟩ := h
   cases hp : s.pending with
   | some x =>
-    exact Inv.of_mid (reportWith_mid wf.maxCalls (cached_closeF cfg 1) (h.to_mid hp) r)
+    rw [show topFuel = 1 + 1 from rfl, closeF_cached cfg 1 s x hp]
+    exact ⟨h, ⟨x, hp⟩, fun _ => hfl⟩
+  | none =>
+    obtain ⟨hrs, hlog, hsh⟩ := h.opened hp
+    obtain ⟨hm, ⟨j, hj, hl, hfull⟩, hben⟩ :=
+      closeF_open wf 0 false [] s hp h.raised h.calls (by simp [h.notif]) hsh hlog h.inner (by simp)
+    refine ⟨Inv'.of_mid hm (by rw [hl]; exact range'_prefix j _ hj) ?_, ⟨_, hm.pending⟩,
+      fun hb => hben hb hfl⟩
+    intro hb
+    rw [hl, hfull (hben hb hfl)]
+
+theorem inv_report {cfg : Cfg} (wf : WF cfg) {s : St} (h : Inv cfg s) (r : Report) (b : Beh) :
+    Inv' cfg (reportWith cfg (closeF cfg topFuel) s r b) ∧
+      Closed (reportWith cfg (closeF cfg topFuel) s r b) := by
+  obtain ⟨h, hfl⟩ := h
+  cases hp : s.pending with
+  | some x =>
+    obtain ⟨a, bb, _⟩ := reportWith_mid wf.maxCalls (cached_closeF cfg 1) (h.to_mid hp) hfl r b
+    obtain ⟨_, _, hlg, hbn⟩ := h.closed x hp
+    exact ⟨Inv'.of_mid a (by rw [bb.2.2]; exact hlg) (fun hb => by rw [bb.2.2]; exact hbn hb),
+      ⟨x, a.pending⟩⟩
   | none =>
     obtain ⟨hrs, hlog, hsh⟩ := h.opened hp
     have hc0 : s.callsMade = 0 := by rw [h.calls, hrs]; rfl
@@ -225,41 +443,104 @@ theorem inv_report {cfg : Cfg} (wf : WF cfg) {s : St} (h : Inv cfg s) (r : Repor
     | dead => exact absurd hl wf.live
     | none =>
       simp only []
-      refine Inv.of_mid (x := s.nextId) ?_
-      exact closeF_open wf 0 [] { s with reports := s.reports ++ [r], callsMade := 1 } hp h.raised
-        (by simp [hrs]) (by simp [hl, firstOf, hnot]) hsh hlog
+      obtain ⟨hm, ⟨j, hj, hlg, hfull⟩, _⟩ :=
+        closeF_open wf 0 true [] { s with reports := s.reports ++ [r], callsMade := 1 } hp h.raised
+          (by simp [hrs]) (by simp [hl, firstOf, hnot]) hsh hlog h.inner (fun _ => ⟨by simp, hfl⟩)
+      have hff := (hm.quiet rfl).2
+      exact ⟨Inv'.of_mid hm (by rw [hlg]; exact range'_prefix j _ hj)
+        (fun _ => by rw [hlg, hfull hff]), ⟨_, hm.pending⟩⟩
     | alive =>
       simp only []
-      have hm := closeF_open wf 0 [r] { s with reports := s.reports ++ [r], callsMade := 1 } hp
-        h.raised (by simp [hrs]) (by simp [hl, firstOf, hnot, hrs]) hsh hlog
-      exact Inv.of_mid (x := s.nextId)
-        ⟨hm.pending, hm.raised, hm.calls, by rw [List.append_nil]; exact hm.notif, hm.shield,
-          hm.pushOn, hm.closeLog⟩
+      obtain ⟨hm, ⟨j, hj, hlg, hfull⟩, _⟩ :=
+        closeF_open wf 0 true [r] { s with reports := s.reports ++ [r], callsMade := 1 } hp
+          h.raised (by simp [hrs]) (by simp [hl, firstOf, hnot, hrs]) hsh hlog h.inner
+          (fun _ => ⟨by simp, hfl⟩)
+      have hff := (hm.quiet rfl).2
+      have hff' : (closeF cfg topFuel { s with reports := s.reports ++ [r], callsMade := 1 }).flying
+          = false := hff
+      simp only [hff', Bool.false_eq_true, if_false]
+      obtain ⟨a, bb, _⟩ := handler_cached (cfg := cfg) (cached_closeF cfg 1) r b hm.weaken hff
+      have hlg' : (closeF cfg topFuel { s with reports := s.reports ++ [r], callsMade := 1 }).closeLog
+          = List.range' 0 j := hlg
+      exact ⟨Inv'.of_mid a (by rw [bb.2.2, hlg']; exact range'_prefix j _ hj)
+        (fun _ => by rw [bb.2.2, hlg', hfull hff]), ⟨_, a.pending⟩⟩
+
+/-- user code inside a PushListener callback: API calls and `close()` calls like any other -/
+theorem inv_runInner {cfg : Cfg} (wf : WF cfg) (es : List InEv) :
+    ∀ s, Inv cfg s → Inv cfg (runInner cfg (closeF cfg topFuel) false s es) := by
+  induction es with
+  | nil => intro s h; exact h
+  | cons e es ih =>
+    intro s h
+    cases e with
+    | api m =>
+      simp only [runInner]
+      apply ih
+      refine ⟨⟨h.1.raised, h.1.calls, h.1.notif, h.1.opened, h.1.closed, ?_⟩, h.2⟩
+      intro e he
+      rcases List.mem_append.mp he with he | he
+      · exact h.1.inner e he
+      · simp only [List.mem_singleton] at he
+        subst he
+        intro hc; simp at hc
+    | close =>
+      obtain ⟨h', _, _⟩ := inv_close wf h
+      simp only [runInner]
+      split
+      · apply ih
+        refine ⟨⟨h'.raised, h'.calls, h'.notif, h'.opened, h'.closed, ?_⟩, rfl⟩
+        intro e he
+        rcases List.mem_append.mp he with he | he
+        · exact h'.inner e he
+        · simp only [List.mem_singleton] at he
+          subst he
+          intro hc; simp at hc
+      · rename_i hnf
+        apply ih
+        refine ⟨⟨h'.raised, h'.calls, h'.notif, h'.opened, h'.closed, ?_⟩, by simpa using hnf⟩
+        intro e he
+        rcases List.mem_append.mp he with he | he
+        · exact h'.inner e he
+        · simp only [List.mem_singleton] at he
+          subst he
+          intro hc; simp at hc
 
 theorem inv_step {cfg : Cfg} (wf : WF cfg) {s : St} (h : Inv cfg s) (e : Ev) :
     Inv cfg (step cfg s e).1 := by
   cases e with
-  | report i k => exact inv_report wf h ⟨i, k⟩
-  | userClose =>
-    have := inv_userClose wf h
+  | report i k b =>
+    obtain ⟨h', _⟩ := inv_report wf h ⟨i, k⟩ b
     simp only [step]
-    split <;> (try split) <;> exact this
-  | api m => simp only [step]; split <;> exact h
+    split
+    · exact h'.clear
+    · rename_i hnf; exact ⟨h', by simpa using hnf⟩
+  | userClose =>
+    obtain ⟨h', _, _⟩ := inv_close wf h
+    simp only [step]
+    split
+    · exact h'.clear
+    · rename_i hnf; exact ⟨h', by simpa using hnf⟩
+  | api m => exact h
   | pushStart =>
     simp only [step]
     split
     · exact h
     · rename_i hb
-      refine ⟨h.raised, h.calls, h.notif, h.opened, ?_⟩
+      refine ⟨⟨h.1.raised, h.1.calls, h.1.notif, h.1.opened, ?_, h.1.inner⟩, h.2⟩
       intro x hx
-      have := isBlocking_closed s cfg.nObjs cfg.pushObj (h.closed x hx).1 wf.push
+      have := isBlocking_closed s cfg.nObjs cfg.pushObj (h.1.closed x hx).1 wf.push
       exact absurd this hb
   | pushStop =>
     simp only [step]
     split
     · exact h
-    · exact ⟨h.raised, h.calls, h.notif, h.opened, fun x hx => ⟨(h.closed x hx).1, rfl, (h.closed x hx).2.2⟩⟩
-  | push i => exact h
+    · exact ⟨⟨h.1.raised, h.1.calls, h.1.notif, h.1.opened,
+        fun x hx => ⟨(h.1.closed x hx).1, rfl, (h.1.closed x hx).2.2⟩, h.1.inner⟩, h.2⟩
+  | push i b =>
+    simp only [step]
+    split
+    · exact inv_runInner wf b.inner s h
+    · exact h
 
 theorem inv_run {cfg : Cfg} (wf : WF cfg) (evs : List Ev) :
     ∀ s, Inv cfg s → Inv cfg (run cfg s evs) := by
@@ -270,7 +551,8 @@ theorem inv_run {cfg : Cfg} (wf : WF cfg) (evs : List Ev) :
 /-! ### the two logs are append-only (so "over the lifetime" is what `notified` records) -/
 
 /-- …and `raised` is sticky: nothing ever clears it, so `raised = false` at the end of a history
-    means no `close()` raised and the model never ran out of fuel anywhere in that history -/
+    means no `close()` raised an error of its own and the model never ran out of fuel anywhere
+    in that history -/
 def Grows (s s' : St) : Prop :=
   s.reports <+: s'.reports ∧ s.notified <+: s'.notified ∧ (s.raised = true → s'.raised = true)
 
@@ -279,30 +561,71 @@ theorem Grows.refl (s : St) : Grows s s := ⟨List.prefix_refl _, List.prefix_re
 theorem Grows.trans {a b c : St} (h1 : Grows a b) (h2 : Grows b c) : Grows a c :=
   ⟨List.IsPrefix.trans h1.1 h2.1, List.IsPrefix.trans h1.2.1 h2.2.1, fun h => h2.2.2 (h1.2.2 h)⟩
 
+/-- prepend a step that leaves the three tracked fields alone -/
+theorem Grows.after {s m t : St} (h : Grows m t) (hr : m.reports = s.reports)
+    (hn : m.notified = s.notified) (hra : m.raised = s.raised) : Grows s t :=
+  ⟨hr ▸ h.1, hn ▸ h.2.1, fun hx => h.2.2 (by rw [hra]; exact hx)⟩
+
 def Mono (k : St → St) : Prop := ∀ s, Grows s (k s)
 
-theorem reportWith_grows {cfg : Cfg} {k : St → St} (hk : Mono k) (s : St) (r : Report) :
-    Grows s (reportWith cfg k s r) := by
-  have h1 : Grows s { s with reports := s.reports ++ [r], callsMade := s.callsMade + 1 } :=
-    ⟨List.prefix_append _ _, List.prefix_refl _, id⟩
+theorem runInner_grows {cfg : Cfg} {k : St → St} (hk : Mono k) (dl : Bool) (es : List InEv) :
+    ∀ s, Grows s (runInner cfg k dl s es) := by
+  induction es with
+  | nil => intro s; exact Grows.refl s
+  | cons e es ih =>
+    intro s
+    cases e with
+    | api m =>
+      simp only [runInner]
+      exact Grows.after (ih _) rfl rfl rfl
+    | close =>
+      simp only [runInner]
+      split
+      · exact (hk s).trans (Grows.after (ih _) rfl rfl rfl)
+      · exact (hk s).trans (Grows.after (ih _) rfl rfl rfl)
+
+theorem handler_grows {cfg : Cfg} {k : St → St} (hk : Mono k) (s : St) (r : Report) (b : Beh) :
+    Grows s (handler cfg k s r b) := by
+  have h1 : Grows s { s with notified := s.notified ++ [r] } :=
+    ⟨List.prefix_refl _, List.prefix_append _ _, id⟩
+  have h2 := runInner_grows (cfg := cfg) hk true b.inner { s with notified := s.notified ++ [r] }
+  unfold handler
+  simp only []
+  split
+  · exact (h1.trans h2).trans ⟨List.prefix_refl _, List.prefix_refl _, id⟩
+  · exact h1.trans h2
+
+theorem reportWith_has {cfg : Cfg} {k : St → St} (hk : Mono k) (s : St) (r : Report) (b : Beh) :
+    Grows { s with reports := s.reports ++ [r], callsMade := s.callsMade + 1 }
+      (reportWith cfg k s r b) := by
   unfold reportWith
   simp only []
   split
-  · exact h1
+  · exact Grows.refl _
   · split
-    · exact h1.trans (hk _)
-    · refine (h1.trans (hk _)).trans ⟨List.prefix_refl _, List.prefix_append _ _, id⟩
-    · exact h1
+    · exact hk _
+    · split
+      · exact hk _
+      · exact (hk _).trans (handler_grows hk _ r b)
+    · exact Grows.refl _
 
-theorem foldl_reportWith_grows {cfg : Cfg} {k : St → St} (hk : Mono k) (i : Nat)
-    (kinds : List Kind) :
-    ∀ s, Grows s (kinds.foldl (fun s kd => reportWith cfg k s ⟨i, kd⟩) s) := by
-  induction kinds with
+theorem reportWith_grows {cfg : Cfg} {k : St → St} (hk : Mono k) (s : St) (r : Report) (b : Beh) :
+    Grows s (reportWith cfg k s r b) :=
+  Grows.trans (b := { s with reports := s.reports ++ [r], callsMade := s.callsMade + 1 })
+    ⟨List.prefix_append _ _, List.prefix_refl _, id⟩ (reportWith_has hk s r b)
+
+theorem foldl_emit_grows {cfg : Cfg} {k : St → St} (hk : Mono k) (i : Nat)
+    (rbs : List (Kind × Beh)) : ∀ s, Grows s (rbs.foldl (emit cfg k i) s) := by
+  induction rbs with
   | nil => intro s; exact Grows.refl s
-  | cons kd kds ih =>
+  | cons rb rbs ih =>
     intro s
     simp only [List.foldl_cons]
-    exact (reportWith_grows hk s _).trans (ih _)
+    refine Grows.trans (b := emit cfg k i s rb) ?_ (ih _)
+    unfold emit
+    split
+    · exact Grows.refl s
+    · exact reportWith_grows hk s _ _
 
 theorem closeProtos_grows {cfg : Cfg} {k : St → St} (hk : Mono k) (ps : List Proto) :
     ∀ i s, Grows s (closeProtos cfg k i ps s) := by
@@ -310,11 +633,22 @@ theorem closeProtos_grows {cfg : Cfg} {k : St → St} (hk : Mono k) (ps : List P
   | nil => intro i s; exact Grows.refl s
   | cons p ps ih =>
     intro i s
-    simp only [closeProtos]
+    have h2 := foldl_emit_grows (cfg := cfg) hk i p.onClose { s with closeLog := s.closeLog ++ [i] }
     have h1 : Grows s { s with closeLog := s.closeLog ++ [i] } := Grows.refl s
-    have h2 := foldl_reportWith_grows (cfg := cfg) hk i p.onClose { s with closeLog := s.closeLog ++ [i] }
-    refine (h1.trans h2).trans (Grows.trans ?_ (ih (i + 1) _))
-    exact ⟨List.prefix_refl _, List.prefix_refl _, id⟩
+    show Grows s (if (p.onClose.foldl (emit cfg k i) { s with closeLog := s.closeLog ++ [i] }).flying then
+        p.onClose.foldl (emit cfg k i) { s with closeLog := s.closeLog ++ [i] }
+       else closeProtos cfg k (i + 1) ps
+        { (p.onClose.foldl (emit cfg k i) { s with closeLog := s.closeLog ++ [i] }) with
+          tasks := (p.onClose.foldl (emit cfg k i) { s with closeLog := s.closeLog ++ [i] }).tasks + p.tasks })
+    split
+    · exact h1.trans h2
+    · exact (h1.trans h2).trans (Grows.after (ih (i + 1) _) rfl rfl rfl)
+
+theorem blockEverything_grows (s : St) : Grows s (blockEverything s) := by
+  refine ⟨List.prefix_refl _, List.prefix_refl _, ?_⟩
+  intro hr
+  unfold blockEverything
+  simp [hr]
 
 theorem closeF_grows (cfg : Cfg) : ∀ f, Mono (closeF cfg f) := by
   intro f
@@ -327,131 +661,112 @@ theorem closeF_grows (cfg : Cfg) : ∀ f, Mono (closeF cfg f) := by
     · exact Grows.refl s
     · split
       · exact ⟨List.prefix_refl _, List.prefix_refl _, fun _ => rfl⟩
-      · have h := closeProtos_grows (cfg := cfg) ih cfg.protos 0
+      · have hb := blockEverything_grows
           { s with pushOn := false, pending := some s.nextId, nextId := s.nextId + 1, tasks := 1 }
-        exact Grows.trans (b := closeProtos cfg (closeF cfg f) 0 cfg.protos
-          { s with pushOn := false, pending := some s.nextId, nextId := s.nextId + 1, tasks := 1 })
-          h ⟨List.prefix_refl _, List.prefix_refl _, by
-            intro hr
-            unfold blockEverything
-            simp [hr]⟩
+        have h0 : Grows s
+            { s with pushOn := false, pending := some s.nextId, nextId := s.nextId + 1, tasks := 1 } :=
+          ⟨List.prefix_refl _, List.prefix_refl _, id⟩
+        dsimp only
+        split
+        · exact h0.trans hb
+        · exact (h0.trans hb).trans (closeProtos_grows (cfg := cfg) ih cfg.protos 0 _)
 
 theorem step_grows (cfg : Cfg) (s : St) (e : Ev) : Grows s (step cfg s e).1 := by
   cases e with
-  | report i k => exact reportWith_grows (closeF_grows cfg topFuel) s _
+  | report i k b =>
+    have := reportWith_grows (cfg := cfg) (closeF_grows cfg topFuel) s ⟨i, k⟩ b
+    simp only [step]
+    split
+    · exact this.trans ⟨List.prefix_refl _, List.prefix_refl _, id⟩
+    · exact this
   | userClose =>
     have := closeF_grows cfg topFuel s
     simp only [step]
-    split <;> (try split) <;> exact this
-  | api m => simp only [step]; split <;> exact Grows.refl s
+    split
+    · exact this.trans ⟨List.prefix_refl _, List.prefix_refl _, id⟩
+    · exact this
+  | api m => exact Grows.refl s
   | pushStart => simp only [step]; split <;> exact Grows.refl s
   | pushStop => simp only [step]; split <;> exact Grows.refl s
-  | push i => exact Grows.refl s
+  | push i b =>
+    simp only [step]
+    split
+    · exact runInner_grows (closeF_grows cfg topFuel) false b.inner s
+    · exact Grows.refl s
 
 theorem run_grows (cfg : Cfg) (evs : List Ev) : ∀ s, Grows s (run cfg s evs) := by
   induction evs with
   | nil => intro s; exact Grows.refl s
   | cons e es ih => intro s; exact (step_grows cfg s e).trans (ih _)
 
-/-! ### once closed, the cached set never changes -/
-
-theorem reportWith_cached_frame {cfg : Cfg} {k : St → St} (hk : Cached k) (s : St) (x : Nat)
-    (hp : s.pending = some x) (r : Report) :
-    (reportWith cfg k s r).pending = some x ∧ (reportWith cfg k s r).tasks = s.tasks ∧
-      (reportWith cfg k s r).closeLog = s.closeLog ∧ (reportWith cfg k s r).shield = s.shield := by
-  have hk' := hk { s with reports := s.reports ++ [r], callsMade := s.callsMade + 1 } x hp
-  unfold reportWith
-  simp only []
-  split
-  · exact ⟨hp, rfl, rfl, rfl⟩
-  · split <;> (try simp only [hk']) <;> simp [hp]
-
-theorem step_closed_frame (cfg : Cfg) (s : St) (x : Nat) (hp : s.pending = some x) (e : Ev) :
-    (step cfg s e).1.pending = some x ∧ (step cfg s e).1.tasks = s.tasks ∧
-      (step cfg s e).1.closeLog = s.closeLog := by
-  cases e with
-  | report i k =>
-    have := reportWith_cached_frame (cfg := cfg) (cached_closeF cfg 1) s x hp ⟨i, k⟩
-    exact ⟨this.1, this.2.1, this.2.2.1⟩
-  | userClose =>
-    have hc : closeF cfg topFuel s = s := closeF_cached cfg 1 s x hp
-    simp only [step, hc, hp]
-    split <;> exact ⟨hp, rfl, rfl⟩
-  | api m => simp only [step]; split <;> exact ⟨hp, rfl, rfl⟩
-  | pushStart => simp only [step]; split <;> exact ⟨hp, rfl, rfl⟩
-  | pushStop => simp only [step]; split <;> exact ⟨hp, rfl, rfl⟩
-  | push i => exact ⟨hp, rfl, rfl⟩
-
-theorem run_closed_frame (cfg : Cfg) (evs : List Ev) :
-    ∀ s x, s.pending = some x →
-      (run cfg s evs).pending = some x ∧ (run cfg s evs).tasks = s.tasks ∧
-        (run cfg s evs).closeLog = s.closeLog := by
-  induction evs with
-  | nil => intro s x hp; exact ⟨hp, rfl, rfl⟩
-  | cons e es ih =>
-    intro s x hp
-    have h1 := step_closed_frame cfg s x hp e
-    have h2 := ih _ x h1.1
-    exact ⟨h2.1, h2.2.1.trans h1.2.1, h2.2.2.trans h1.2.2⟩
-
-/-! ### a closing event closes -/
-
-theorem reportWith_has {cfg : Cfg} {k : St → St} (hk : Mono k) (s : St) (r : Report) :
-    s.reports ++ [r] <+: (reportWith cfg k s r).reports := by
-  unfold reportWith
-  simp only []
-  split
-  · exact List.prefix_refl _
-  · split
-    · exact (hk { s with reports := s.reports ++ [r], callsMade := s.callsMade + 1 }).1
-    · exact (hk { s with reports := s.reports ++ [r], callsMade := s.callsMade + 1 }).1
-    · exact List.prefix_refl _
-
-/-- the device has been closed: `_pending_tasks` is set -/
-def Closed (s : St) : Prop := ∃ x, s.pending = some x
+/-! ### a closing event closes; once closed, the cached set never changes -/
 
 /-- events that the property names as final: the user's `close()` and any report -/
 def Ev.isClosing : Ev → Bool
   | .userClose => true
-  | .report _ _ => true
+  | .report _ _ _ => true
   | _ => false
 
 theorem closed_of_closing {cfg : Cfg} (wf : WF cfg) {s : St} (h : Inv cfg s) (e : Ev)
     (he : e.isClosing = true) : Closed (step cfg s e).1 := by
-  have hinv := inv_step wf h e
   cases e with
-  | report i k =>
-    have hne : (step cfg s (.report i k)).1.reports ≠ [] := by
-      intro hnil
-      have := reportWith_has (cfg := cfg) (closeF_grows cfg topFuel) s ⟨i, k⟩
-      simp only [step] at hnil
-      rw [hnil] at this
-      simp at this
-    cases hp : (step cfg s (.report i k)).1.pending with
-    | some x => exact ⟨x, hp⟩
-    | none => exact absurd (hinv.opened hp).1 hne
+  | report i k b =>
+    obtain ⟨_, x, hx⟩ := inv_report wf h ⟨i, k⟩ b
+    refine ⟨x, ?_⟩
+    simp only [step]
+    split <;> exact hx
   | userClose =>
-    cases hp : s.pending with
-    | some x =>
-      have hc : closeF cfg topFuel s = s := closeF_cached cfg 1 s x hp
-      refine ⟨x, ?_⟩
-      simp only [step, hc, hp]
-      split <;> exact hp
-    | none =>
-      obtain ⟨_, hlog, hsh⟩ := h.opened hp
-      have hm := closeF_open wf 0 [] s hp h.raised h.calls (by simp [h.notif]) hsh hlog
-      refine ⟨s.nextId, ?_⟩
-      have : closeF cfg topFuel s = closeF cfg (0 + 2) s := rfl
-      simp only [step, this, hm.pending, hm.raised]
-      simp [hm.pending]
+    obtain ⟨_, ⟨x, hx⟩, _⟩ := inv_close wf h
+    refine ⟨x, ?_⟩
+    simp only [step]
+    split <;> exact hx
   | api m => simp [Ev.isClosing] at he
   | pushStart => simp [Ev.isClosing] at he
   | pushStop => simp [Ev.isClosing] at he
-  | push i => simp [Ev.isClosing] at he
+  | push i b => simp [Ev.isClosing] at he
 
-theorem closed_run (cfg : Cfg) (evs : List Ev) (s : St) (h : Closed s) : Closed (run cfg s evs) := by
+theorem runInner_closed_frame {cfg : Cfg} (es : List InEv) :
+    ∀ s x, Inv' cfg s → s.flying = false → s.pending = some x →
+      Same s (runInner cfg (closeF cfg topFuel) false s es) := by
+  intro s x h hf hp
+  exact (runInner_cached (cfg := cfg) (cached_closeF cfg 1) false es s (h.to_mid hp) hf).2.2
+
+theorem step_closed_frame {cfg : Cfg} (wf : WF cfg) (s : St) (x : Nat) (h : Inv cfg s)
+    (hp : s.pending = some x) (e : Ev) : Same s (step cfg s e).1 := by
+  cases e with
+  | report i k b =>
+    have := (reportWith_mid wf.maxCalls (cached_closeF cfg 1) (h.1.to_mid hp) h.2 ⟨i, k⟩ b).2.1
+    simp only [step]
+    split
+    · exact this
+    · exact this
+  | userClose =>
+    have hc : closeF cfg topFuel s = s := closeF_cached cfg 1 s x hp
+    simp only [step, hc]
+    split <;> exact Same.refl s
+  | api m => exact Same.refl s
+  | pushStart => simp only [step]; split <;> exact Same.refl s
+  | pushStop => simp only [step]; split <;> exact Same.refl s
+  | push i b =>
+    simp only [step]
+    split
+    · exact runInner_closed_frame b.inner s x h.1 h.2 hp
+    · exact Same.refl s
+
+theorem run_closed_frame {cfg : Cfg} (wf : WF cfg) (evs : List Ev) :
+    ∀ s x, Inv cfg s → s.pending = some x → Same s (run cfg s evs) := by
+  induction evs with
+  | nil => intro s x _ _; exact Same.refl s
+  | cons e es ih =>
+    intro s x h hp
+    have h1 := step_closed_frame wf s x h hp e
+    have hp' : (step cfg s e).1.pending = some x := by rw [h1.1]; exact hp
+    exact Same.trans h1 (ih _ x (inv_step wf h e) hp')
+
+theorem closed_run {cfg : Cfg} (wf : WF cfg) (evs : List Ev) (s : St) (hi : Inv cfg s)
+    (h : Closed s) : Closed (run cfg s evs) := by
   obtain ⟨x, hx⟩ := h
-  exact ⟨x, (run_closed_frame cfg evs s x hx).1⟩
+  exact ⟨x, by rw [(run_closed_frame wf evs s x hi hx).1]; exact hx⟩
 
 theorem run_append (cfg : Cfg) (a b : List Ev) : ∀ s, run cfg s (a ++ b) = run cfg (run cfg s a) b := by
   induction a with
